@@ -76,7 +76,7 @@ Print Assumptions c09_rows_live_in_store.
    otherwise; a cold cache agrees with the index of the final version; the registered (warm) cache
    agrees with it too PROVIDED the schedule was calm: no storage commit while a reader's transaction
    is open and no removal of the manager entry (eviction, Release, scrap by a failing reader) while
-   the writer holds its write lock (C11's finding; c09_evict_stale_refuted is the counterexample). *)
+   the writer holds its write lock (C11's finding; c09_evict_stale_refuted_v0 is the counterexample). *)
 Theorem c09_final_state :
   forall (cfg : config) (p0 : pstore) (bs : list batch) (progs : list prog) (sched : list tid),
     let st := run cfg sched (init p0 bs progs) in
@@ -164,8 +164,12 @@ Print Assumptions c09_guard_no_crash.
 
 (* ---- why c09_final_state needs `calm` for the warm cache: the manager entry is evicted while the writer
    holds its lock, a reader registers a cache built from the old snapshot, the commit does not reach
-   it: after the writer has finished the registered cache still answers with I_0 (C11 / C08: F6) *)
-Theorem c09_evict_stale_refuted :
+   it: after the writer has finished the registered cache still answers with I_0 (C11 / C08: F6).
+   _v0: this is the manager BEFORE fix 2d185e4 (a successful Commit now discards a cache registered under
+   the name in the meantime; Props_C11.c11_coherent is the statement for the repaired manager). The model of
+   this file keeps the pinned commit step: it allows MORE behaviours than the repaired code, so what is
+   proved here for every schedule still holds of the code; this witness no longer describes it. *)
+Theorem c09_evict_stale_refuted_v0 :
   let cfg := toy_cfg true in
   let st0 := init w_p0 [w_batch] [w_q_get] in
   let st := run cfg w_sched_evict st0 in
@@ -174,7 +178,7 @@ Theorem c09_evict_stale_refuted :
                 cache_get cfg (st_cur st) c 0%N = Some [1%N] /\
                 idx_get (cfg_index cfg (st_cur st)) 0%N = Some [2%N; 1%N].
 Proof. exact evict_stale_refuted. Qed.
-Print Assumptions c09_evict_stale_refuted.
+Print Assumptions c09_evict_stale_refuted_v0.
 
 (* ---- the forced schedules of the check (harness/c09forced.go): the writer is stopped INSIDE its write
    transaction -- it has write-locked the registered cache cid and updated it in place to the index of the
